@@ -544,6 +544,720 @@ fn pair_cases(thorough: bool) -> Vec<Case> {
     v
 }
 
+// =================================================================================================
+// Operator level: MatMulInteger / ConvInteger / QuantizeLinear / DequantizeLinear /
+// DynamicQuantizeLinear through the public API (single-operator ONNX models built here, loaded with
+// `ModelOptions::with_all_ops().load`, executed with `Model::run`).
+//
+//   mmi pre=<0|1> da=<u8|i8> db=<u8|i8> batch=<0|B> bb=<0|1> m= k= n= za=<-|s:v|v:rle> zb=<..> a=<rle> b=<rle>
+//   cvi pre=<0|1> dx= dw= n= c= h= w= o= kh= kw= g= pads=t,l,b,r st=sy,sx dil=dy,dx xz=<-|v> wz=<-|s:v|v:rle> x=<rle> wt=<rle>
+//   ql dt= e= zp= x=<rle>            (scale 2^e, x integers)              -> quantized values
+//   dq dt= e= zp= q=<rle>            (scale 2^e)                          -> out / 2^e
+//   dql e= x=<rle>                   (input = x * 2^e)                    -> scale_e=.. zp=.. y=..
+//   # dqlr n= amp=                   (random reals; property oracle only)
+// =================================================================================================
+#[path = "../onnx_enc.rs"]
+mod onnx_enc;
+use onnx_enc::{dt, Attr, Graph, Node, Tensor as OT, ValueInfo};
+use rten::{ModelOptions, Value};
+use rten_tensor::Tensor as RTensor;
+
+fn enc_attr(name: &str, a: &Attr) -> Vec<u8> {
+    use onnx_enc::{f_bytes, f_f32, f_i64, f_str};
+    let mut o = Vec::new();
+    f_str(&mut o, 1, name);
+    match a {
+        Attr::Float(v) => {
+            f_f32(&mut o, 2, *v);
+            f_i64(&mut o, 20, 1);
+        }
+        Attr::Int(v) => {
+            f_i64(&mut o, 3, *v);
+            f_i64(&mut o, 20, 2);
+        }
+        Attr::Str(v) => {
+            f_str(&mut o, 4, v);
+            f_i64(&mut o, 20, 3);
+        }
+        Attr::Ints(v) => {
+            for x in v {
+                f_i64(&mut o, 8, *x);
+            }
+            f_i64(&mut o, 20, 7);
+        }
+        _ => panic!("attribute kind not used by this harness"),
+    }
+    o
+}
+
+fn enc_node(n: &Node) -> Vec<u8> {
+    use onnx_enc::{f_bytes, f_str};
+    let mut o = Vec::new();
+    for i in &n.inputs {
+        f_str(&mut o, 1, i);
+    }
+    for i in &n.outputs {
+        f_str(&mut o, 2, i);
+    }
+    f_str(&mut o, 3, &n.name);
+    f_str(&mut o, 4, &n.op_type);
+    for (name, a) in &n.attrs {
+        f_bytes(&mut o, 5, &enc_attr(name, a));
+    }
+    if !n.domain.is_empty() {
+        f_str(&mut o, 7, &n.domain);
+    }
+    o
+}
+
+fn model_bytes(g: &Graph) -> Vec<u8> {
+    use onnx_enc::{f_bytes, f_i64, f_str};
+    let mut gb = Vec::new();
+    for n in &g.nodes {
+        f_bytes(&mut gb, 1, &enc_node(n));
+    }
+    f_str(&mut gb, 2, "g");
+    for t in &g.initializers {
+        f_bytes(&mut gb, 5, &t.encode());
+    }
+    for v in &g.inputs {
+        f_bytes(&mut gb, 11, &v.encode());
+    }
+    for v in &g.outputs {
+        f_bytes(&mut gb, 12, &v.encode());
+    }
+    let mut o = Vec::new();
+    f_i64(&mut o, 1, 8);
+    f_str(&mut o, 2, "rten-verif");
+    f_bytes(&mut o, 7, &gb);
+    for (domain, version) in [("", 21i64), ("com.microsoft", 1)] {
+        let mut ops = Vec::new();
+        f_str(&mut ops, 1, domain);
+        f_i64(&mut ops, 2, version);
+        f_bytes(&mut o, 8, &ops);
+    }
+    o
+}
+
+enum Feed {
+    U8(Vec<usize>, Vec<u8>),
+    I8(Vec<usize>, Vec<i8>),
+    F32(Vec<usize>, Vec<f32>),
+}
+
+impl Feed {
+    fn dtype(&self) -> i32 {
+        match self {
+            Feed::U8(..) => dt::UINT8,
+            Feed::I8(..) => dt::INT8,
+            Feed::F32(..) => dt::FLOAT,
+        }
+    }
+    fn as_init(&self, name: &str) -> OT {
+        match self {
+            Feed::U8(s, v) => OT::u8s(name, &s.iter().map(|&d| d as i64).collect::<Vec<_>>(), v),
+            Feed::I8(s, v) => OT::i8s(name, &s.iter().map(|&d| d as i64).collect::<Vec<_>>(), v),
+            Feed::F32(s, v) => OT::f32s(name, &s.iter().map(|&d| d as i64).collect::<Vec<_>>(), v),
+        }
+    }
+}
+
+/// Build and run a single-node model. `inputs`: (name, data, as_initializer).
+fn run_op(node: Node, inputs: Vec<(String, Feed, bool)>, outs: &[(&str, i32)], prepack: bool) -> Result<Vec<Value>, String> {
+    let mut g = Graph { nodes: vec![node], ..Default::default() };
+    for (name, f, init) in &inputs {
+        if *init {
+            g.initializers.push(f.as_init(name));
+        } else {
+            g.inputs.push(ValueInfo::new(name, f.dtype(), None));
+        }
+    }
+    g.outputs = outs.iter().map(|(n, d)| ValueInfo::new(n, *d, None)).collect();
+    let bytes = model_bytes(&g);
+    let mut opts = ModelOptions::with_all_ops();
+    opts.enable_optimization(false);
+    opts.prepack_weights(prepack);
+    let model = opts.load(bytes).map_err(|e| format!("load: {e}"))?;
+    let mut tensors_u8 = vec![];
+    let mut tensors_i8 = vec![];
+    let mut tensors_f32 = vec![];
+    for (name, f, init) in &inputs {
+        if *init {
+            continue;
+        }
+        let id = model.node_id(name).map_err(|e| format!("node_id: {e}"))?;
+        match f {
+            Feed::U8(s, v) => tensors_u8.push((id, RTensor::from_data(s.as_slice(), v.clone()))),
+            Feed::I8(s, v) => tensors_i8.push((id, RTensor::from_data(s.as_slice(), v.clone()))),
+            Feed::F32(s, v) => tensors_f32.push((id, RTensor::from_data(s.as_slice(), v.clone()))),
+        }
+    }
+    let mut run_inputs = vec![];
+    for (id, t) in &tensors_u8 {
+        run_inputs.push((*id, t.view().into()));
+    }
+    for (id, t) in &tensors_i8 {
+        run_inputs.push((*id, t.view().into()));
+    }
+    for (id, t) in &tensors_f32 {
+        run_inputs.push((*id, t.view().into()));
+    }
+    let mut out_ids = vec![];
+    for (n, _) in outs {
+        out_ids.push(model.node_id(n).map_err(|e| format!("node_id: {e}"))?);
+    }
+    model.run(run_inputs, &out_ids, None).map_err(|e| format!("run: {e}"))
+}
+
+#[derive(Clone, Copy, PartialEq, Debug)]
+enum QDt {
+    U8,
+    I8,
+}
+
+impl QDt {
+    fn name(self) -> &'static str {
+        match self {
+            QDt::U8 => "u8",
+            QDt::I8 => "i8",
+        }
+    }
+    fn range(self) -> (i64, i64) {
+        match self {
+            QDt::U8 => (0, 255),
+            QDt::I8 => (-128, 127),
+        }
+    }
+    fn feed(self, shape: &[usize], v: &[i64]) -> Feed {
+        match self {
+            QDt::U8 => Feed::U8(shape.to_vec(), v.iter().map(|&x| x as u8).collect()),
+            QDt::I8 => Feed::I8(shape.to_vec(), v.iter().map(|&x| x as i8).collect()),
+        }
+    }
+    fn gen(self, rng: &mut Rng, style: u64) -> i64 {
+        let (lo, hi) = self.range();
+        match style {
+            0 => *rng.pick(&[lo, hi, lo + 1, hi - 1, (lo + hi) / 2, (lo + hi) / 2 + 1]),
+            1 => {
+                if rng.chance(1, 3) {
+                    *rng.pick(&[lo, hi])
+                } else {
+                    rng.range_i64(lo, hi)
+                }
+            }
+            _ => rng.range_i64(lo, hi),
+        }
+    }
+}
+
+#[derive(Clone)]
+enum Zp {
+    None,
+    Scalar(i64),
+    Vec(Vec<i64>),
+}
+
+impl Zp {
+    fn at(&self, i: usize) -> i64 {
+        match self {
+            Zp::None => 0,
+            Zp::Scalar(v) => *v,
+            Zp::Vec(v) => v[i],
+        }
+    }
+    fn show(&self) -> String {
+        match self {
+            Zp::None => "-".into(),
+            Zp::Scalar(v) => format!("s:{v}"),
+            Zp::Vec(v) => format!("v:{}", rle(v)),
+        }
+    }
+    fn gen(rng: &mut Rng, d: QDt, len: usize, allow_vec: bool) -> Zp {
+        match rng.below(if allow_vec { 4 } else { 3 }) {
+            0 => Zp::None,
+            1 => Zp::Scalar(d.gen(rng, 0)),
+            2 => Zp::Scalar(d.gen(rng, 2)),
+            _ => Zp::Vec((0..len).map(|_| d.gen(rng, 1)).collect()),
+        }
+    }
+    fn input(&self, name: &str, d: QDt) -> Option<(String, Feed, bool)> {
+        match self {
+            Zp::None => None,
+            Zp::Scalar(v) => Some((name.to_string(), d.feed(&[], &[*v]), true)),
+            Zp::Vec(v) => Some((name.to_string(), d.feed(&[v.len()], v), true)),
+        }
+    }
+}
+
+fn ints_of(v: &Value) -> Result<(Vec<usize>, Vec<i64>), String> {
+    match v {
+        Value::Int32Tensor(t) => Ok((t.shape().to_vec(), t.iter().map(|&x| x as i64).collect())),
+        Value::UInt8Tensor(t) => Ok((t.shape().to_vec(), t.iter().map(|&x| x as i64).collect())),
+        Value::Int8Tensor(t) => Ok((t.shape().to_vec(), t.iter().map(|&x| x as i64).collect())),
+        _ => Err("unexpected output type".into()),
+    }
+}
+
+fn floats_of(v: &Value) -> Result<Vec<f32>, String> {
+    match v {
+        Value::FloatTensor(t) => Ok(t.iter().copied().collect()),
+        _ => Err("unexpected output type".into()),
+    }
+}
+
+fn shape_str(s: &[usize]) -> String {
+    hcommon::join(s.iter(), "x")
+}
+
+fn mmi_case(out: &mut Out, rng: &mut Rng) {
+    let da = *rng.pick(&[QDt::U8, QDt::I8]);
+    let db = *rng.pick(&[QDt::U8, QDt::I8]);
+    let batch = *rng.pick(&[0usize, 0, 0, 2, 3]);
+    let bb = batch > 0 && rng.chance(1, 3);
+    let m = *rng.pick(&[1usize, 1, 2, 3, 5, 8, 9, 13, 17]);
+    let k = if rng.chance(1, 15) { 0 } else { 1 + rng.usize_below(24) };
+    let n = *rng.pick(&[1usize, 2, 3, 7, 16, 17, 31, 33, 40]);
+    let pre = !bb && rng.chance(1, 3);
+    let nb = batch.max(1);
+    let style = rng.below(3);
+    let a: Vec<i64> = (0..nb * m * k).map(|_| da.gen(rng, style)).collect();
+    let b: Vec<i64> = (0..(if bb { nb } else { 1 }) * k * n).map(|_| db.gen(rng, style)).collect();
+    let za = Zp::gen(rng, da, m, true);
+    let zb = Zp::gen(rng, db, n, true);
+    let req = format!(
+        "mmi pre={} da={} db={} batch={} bb={} m={m} k={k} n={n} za={} zb={} a={} b={}",
+        pre as u8,
+        da.name(),
+        db.name(),
+        batch,
+        bb as u8,
+        za.show(),
+        zb.show(),
+        rle(&a),
+        rle(&b)
+    );
+    let mut want = vec![];
+    for bi in 0..nb {
+        for i in 0..m {
+            for j in 0..n {
+                let mut acc = 0i64;
+                for kk in 0..k {
+                    let av = a[(bi * m + i) * k + kk];
+                    let bv = b[((if bb { bi } else { 0 }) * k + kk) * n + j];
+                    acc += (av - za.at(i)) * (bv - zb.at(j));
+                }
+                want.push(acc);
+            }
+        }
+    }
+    let a_shape: Vec<usize> = if batch > 0 { vec![batch, m, k] } else { vec![m, k] };
+    let b_shape: Vec<usize> = if bb { vec![batch, k, n] } else { vec![k, n] };
+    let res = hcommon::catch(|| {
+        let mut inputs = vec![("A".to_string(), da.feed(&a_shape, &a), false), ("B".to_string(), db.feed(&b_shape, &b), pre)];
+        let mut names = vec!["A", "B"];
+        match (za.input("azp", da), zb.input("bzp", db)) {
+            (Some(x), Some(y)) => {
+                inputs.push(x);
+                inputs.push(y);
+                names.push("azp");
+                names.push("bzp");
+            }
+            (Some(x), None) => {
+                inputs.push(x);
+                names.push("azp");
+            }
+            (None, Some(y)) => {
+                inputs.push(y);
+                names.push("");
+                names.push("bzp");
+            }
+            (None, None) => {}
+        }
+        let node = Node::new("MatMulInteger", "op", &names, &["Y"]);
+        run_op(node, inputs, &[("Y", dt::INT32)], pre).and_then(|o| ints_of(&o[0]))
+    });
+    let mut fail = None;
+    let ans = match res {
+        Ok(Ok((shape, v))) => {
+            if v != want {
+                let p = (0..v.len().min(want.len())).find(|&i| v[i] != want[i]).unwrap_or(0);
+                fail = Some(format!("MatMulInteger out[{p}]={:?} but exact value is {:?}", v.get(p), want.get(p)));
+            }
+            format!("shape={} {}", shape_str(&shape), rle(&v))
+        }
+        Ok(Err(e)) => {
+            fail = Some(format!("MatMulInteger failed on a well-formed model: {e}"));
+            "err".into()
+        }
+        Err(m) => {
+            fail = Some(format!("MatMulInteger panicked: {m}"));
+            "panic".into()
+        }
+    };
+    out.bucket(&format!("op_mmi_{}{}_pre{}", da.name(), db.name(), pre as u8));
+    out.case(&req, &ans, fail.as_deref(), k > 0);
+}
+
+fn cvi_case(out: &mut Out, rng: &mut Rng) {
+    let dx = *rng.pick(&[QDt::U8, QDt::I8]);
+    let dw = *rng.pick(&[QDt::U8, QDt::I8]);
+    let kind = rng.below(4); // 0 general, 1 grouped, 2 depthwise, 3 pointwise
+    let groups = match kind {
+        1 => 2,
+        2 => 1 + rng.usize_below(3),
+        _ => 1,
+    };
+    let (c, o) = match kind {
+        2 => (groups, groups),
+        _ => (groups * (1 + rng.usize_below(3)), groups * (1 + rng.usize_below(3))),
+    };
+    let nimg = *rng.pick(&[1usize, 1, 2, 3]);
+    let (kh, kw) = if kind == 3 { (1, 1) } else { (1 + rng.usize_below(3), 1 + rng.usize_below(3)) };
+    let (dy, dxx) = if kind == 3 { (1, 1) } else { (1 + rng.usize_below(2), 1 + rng.usize_below(2)) };
+    let (sy, sx) = if kind == 3 && rng.chance(2, 3) { (1, 1) } else { (1 + rng.usize_below(2), 1 + rng.usize_below(2)) };
+    let pads: [usize; 4] = if kind == 3 && rng.chance(2, 3) {
+        [0; 4]
+    } else if rng.chance(1, 4) {
+        [0; 4]
+    } else {
+        [rng.usize_below(3), rng.usize_below(3), rng.usize_below(3), rng.usize_below(3)]
+    };
+    let min_h = (dy * (kh - 1) + 1).saturating_sub(pads[0] + pads[2]).max(1);
+    let min_w = (dxx * (kw - 1) + 1).saturating_sub(pads[1] + pads[3]).max(1);
+    let h = min_h + rng.usize_below(5);
+    let w = min_w + rng.usize_below(5);
+    let cg = c / groups;
+    let style = rng.below(3);
+    let x: Vec<i64> = (0..nimg * c * h * w).map(|_| dx.gen(rng, style)).collect();
+    let wt: Vec<i64> = (0..o * cg * kh * kw).map(|_| dw.gen(rng, style)).collect();
+    let xz = match Zp::gen(rng, dx, 1, false) {
+        Zp::Vec(_) => Zp::None,
+        z => z,
+    };
+    let wz = Zp::gen(rng, dw, o, true);
+    let pre = rng.chance(1, 3);
+    let oh = (h + pads[0] + pads[2] - (dy * (kh - 1) + 1)) / sy + 1;
+    let ow = (w + pads[1] + pads[3] - (dxx * (kw - 1) + 1)) / sx + 1;
+    let req = format!(
+        "cvi pre={} dx={} dw={} n={nimg} c={c} h={h} w={w} o={o} kh={kh} kw={kw} g={groups} pads={},{},{},{} st={sy},{sx} dil={dy},{dxx} xz={} wz={} x={} wt={}",
+        pre as u8,
+        dx.name(),
+        dw.name(),
+        pads[0],
+        pads[1],
+        pads[2],
+        pads[3],
+        xz.show(),
+        wz.show(),
+        rle(&x),
+        rle(&wt)
+    );
+    let og = o / groups;
+    let mut want = vec![];
+    for img in 0..nimg {
+        for oc in 0..o {
+            let g = oc / og;
+            for oy in 0..oh {
+                for ox in 0..ow {
+                    let mut acc = 0i64;
+                    for ic in 0..cg {
+                        for ky in 0..kh {
+                            for kx in 0..kw {
+                                let iy = oy * sy + ky * dy;
+                                let ix = ox * sx + kx * dxx;
+                                if iy >= pads[0] && iy < h + pads[0] && ix >= pads[1] && ix < w + pads[1] {
+                                    let xv = x[((img * c + g * cg + ic) * h + iy - pads[0]) * w + ix - pads[1]];
+                                    let wv = wt[((oc * cg + ic) * kh + ky) * kw + kx];
+                                    acc += (wv - wz.at(oc)) * (xv - xz.at(0));
+                                }
+                            }
+                        }
+                    }
+                    want.push(acc);
+                }
+            }
+        }
+    }
+    let res = hcommon::catch(|| {
+        let mut inputs = vec![
+            ("X".to_string(), dx.feed(&[nimg, c, h, w], &x), false),
+            ("W".to_string(), dw.feed(&[o, cg, kh, kw], &wt), pre),
+        ];
+        let mut names = vec!["X", "W"];
+        match (xz.input("xzp", dx), wz.input("wzp", dw)) {
+            (Some(a), Some(b)) => {
+                inputs.push(a);
+                inputs.push(b);
+                names.push("xzp");
+                names.push("wzp");
+            }
+            (Some(a), None) => {
+                inputs.push(a);
+                names.push("xzp");
+            }
+            (None, Some(b)) => {
+                inputs.push(b);
+                names.push("");
+                names.push("wzp");
+            }
+            (None, None) => {}
+        }
+        let node = Node::new("ConvInteger", "op", &names, &["Y"])
+            .attr("pads", Attr::Ints(pads.iter().map(|&p| p as i64).collect()))
+            .attr("strides", Attr::Ints(vec![sy as i64, sx as i64]))
+            .attr("dilations", Attr::Ints(vec![dy as i64, dxx as i64]))
+            .attr("group", Attr::Int(groups as i64));
+        run_op(node, inputs, &[("Y", dt::INT32)], pre).and_then(|o| ints_of(&o[0]))
+    });
+    let mut fail = None;
+    let ans = match res {
+        Ok(Ok((shape, v))) => {
+            if v != want {
+                let p = (0..v.len().min(want.len())).find(|&i| v[i] != want[i]).unwrap_or(0);
+                fail = Some(format!("ConvInteger out[{p}]={:?} but the definition gives {:?}", v.get(p), want.get(p)));
+            }
+            format!("shape={} {}", shape_str(&shape), rle(&v))
+        }
+        Ok(Err(e)) => {
+            fail = Some(format!("ConvInteger failed on a well-formed model: {e}"));
+            "err".into()
+        }
+        Err(m) => {
+            fail = Some(format!("ConvInteger panicked: {m}"));
+            "panic".into()
+        }
+    };
+    out.bucket(&format!("op_cvi_kind{kind}_{}{}", dx.name(), dw.name()));
+    out.bucket(if pads.iter().any(|&p| p > 0) { "op_cvi_padded" } else { "op_cvi_unpadded" });
+    out.case(&req, &ans, fail.as_deref(), true);
+}
+
+fn pow2(e: i32) -> f32 {
+    2f32.powi(e)
+}
+
+fn ql_case(out: &mut Out, rng: &mut Rng) {
+    let d = *rng.pick(&[QDt::U8, QDt::I8]);
+    let e = rng.range_i64(-3, 4) as i32;
+    let zp = d.gen(rng, 1);
+    let len = 1 + rng.usize_below(40);
+    // integers so that x / 2^e hits exact ties, both signs, and values far outside the range
+    let x: Vec<i64> = (0..len)
+        .map(|_| {
+            let span = 300i64 << e.max(0);
+            if rng.chance(1, 8) {
+                *rng.pick(&[0, 100000, -100000])
+            } else {
+                rng.range_i64(-span, span)
+            }
+        })
+        .collect();
+    let req = format!("ql dt={} e={e} zp={zp} x={}", d.name(), rle(&x));
+    let xf: Vec<f32> = x.iter().map(|&v| v as f32).collect();
+    let res = hcommon::catch(|| {
+        let inputs = vec![
+            ("X".to_string(), Feed::F32(vec![len], xf.clone()), false),
+            ("S".to_string(), Feed::F32(vec![], vec![pow2(e)]), true),
+            ("Z".to_string(), d.feed(&[], &[zp]), true),
+        ];
+        let node = Node::new("QuantizeLinear", "op", &["X", "S", "Z"], &["Y"]);
+        run_op(node, inputs, &[("Y", if d == QDt::U8 { dt::UINT8 } else { dt::INT8 })], false).and_then(|o| ints_of(&o[0]))
+    });
+    let (lo, hi) = d.range();
+    let mut fail = None;
+    let ans = match res {
+        Ok(Ok((_, v))) => {
+            // property: dequantize(quantize x) within half a step unless saturated
+            for (i, &q) in v.iter().enumerate() {
+                let back = (q - zp) as f64 * pow2(e) as f64;
+                let err = (back - x[i] as f64).abs();
+                let saturated = q == lo || q == hi;
+                if !saturated && err > 0.5 * pow2(e) as f64 {
+                    fail = Some(format!("QuantizeLinear x={} -> {q}: error {err} exceeds half a step", x[i]));
+                }
+            }
+            rle(&v)
+        }
+        Ok(Err(e)) => {
+            fail = Some(format!("QuantizeLinear failed: {e}"));
+            "err".into()
+        }
+        Err(m) => {
+            fail = Some(format!("QuantizeLinear panicked: {m}"));
+            "panic".into()
+        }
+    };
+    out.bucket(&format!("op_ql_{}", d.name()));
+    out.case(&req, &ans, fail.as_deref(), true);
+}
+
+fn dq_case(out: &mut Out, rng: &mut Rng) {
+    let d = *rng.pick(&[QDt::U8, QDt::I8]);
+    let e = rng.range_i64(-3, 4) as i32;
+    let zp = d.gen(rng, 1);
+    let len = 1 + rng.usize_below(40);
+    let q: Vec<i64> = (0..len).map(|_| d.gen(rng, 1)).collect();
+    let req = format!("dq dt={} e={e} zp={zp} q={}", d.name(), rle(&q));
+    let res = hcommon::catch(|| {
+        let inputs = vec![
+            ("X".to_string(), d.feed(&[len], &q), false),
+            ("S".to_string(), Feed::F32(vec![], vec![pow2(e)]), true),
+            ("Z".to_string(), d.feed(&[], &[zp]), true),
+        ];
+        let node = Node::new("DequantizeLinear", "op", &["X", "S", "Z"], &["Y"]);
+        run_op(node, inputs, &[("Y", dt::FLOAT)], false).and_then(|o| floats_of(&o[0]))
+    });
+    let mut fail = None;
+    let ans = match res {
+        Ok(Ok(v)) => {
+            let units: Vec<i64> = v.iter().map(|&y| (y as f64 / pow2(e) as f64).round() as i64).collect();
+            for (i, &y) in v.iter().enumerate() {
+                if y as f64 != (q[i] - zp) as f64 * pow2(e) as f64 {
+                    fail = Some(format!("DequantizeLinear q={} -> {y}, expected (q - zp) * scale", q[i]));
+                }
+            }
+            rle(&units)
+        }
+        Ok(Err(e)) => {
+            fail = Some(format!("DequantizeLinear failed: {e}"));
+            "err".into()
+        }
+        Err(m) => {
+            fail = Some(format!("DequantizeLinear panicked: {m}"));
+            "panic".into()
+        }
+    };
+    out.bucket(&format!("op_dq_{}", d.name()));
+    out.case(&req, &ans, fail.as_deref(), true);
+}
+
+fn run_dql(xf: &[f32]) -> Result<(Vec<i64>, f32, i64), String> {
+    let inputs = vec![("X".to_string(), Feed::F32(vec![xf.len()], xf.to_vec()), false)];
+    let node = Node::new("DynamicQuantizeLinear", "op", &["X"], &["Y", "S", "Z"]);
+    let o = run_op(node, inputs, &[("Y", dt::UINT8), ("S", dt::FLOAT), ("Z", dt::UINT8)], false)?;
+    let (_, y) = ints_of(&o[0])?;
+    let s = floats_of(&o[1])?;
+    let (_, z) = ints_of(&o[2])?;
+    Ok((y, s[0], z[0]))
+}
+
+/// Property oracle of DynamicQuantizeLinear: dequantize(quantize x) within one step of x.
+fn dql_property(xf: &[f32], y: &[i64], scale: f32, zp: i64) -> Option<String> {
+    for (i, &x) in xf.iter().enumerate() {
+        let back = (y[i] - zp) as f64 * scale as f64;
+        let err = (back - x as f64).abs();
+        if !(err <= scale as f64 * (1.0 + 1e-5) + 1e-30) {
+            return Some(format!("DynamicQuantizeLinear x={x} -> y={} zp={zp} scale={scale}: |dequantized - x| = {err} exceeds one step", y[i]));
+        }
+    }
+    None
+}
+
+fn dql_exact_case(out: &mut Out, rng: &mut Rng) {
+    let e = rng.range_i64(-4, 4) as i32;
+    let len = 1 + rng.usize_below(30);
+    let kind = rng.below(6);
+    let mut x: Vec<i64> = match kind {
+        0 => vec![0; len],
+        1 => {
+            // all non-negative, max 255 * 2^j
+            let j = rng.below(3) as u32;
+            let mut v: Vec<i64> = (0..len).map(|_| rng.range_i64(0, 255 << j)).collect();
+            v[0] = 255 << j;
+            v
+        }
+        2 => {
+            let j = rng.below(3) as u32;
+            let mut v: Vec<i64> = (0..len).map(|_| -rng.range_i64(0, 255 << j)).collect();
+            v[0] = -(255 << j);
+            v
+        }
+        _ => {
+            let j = rng.below(3) as u32;
+            let lo = -rng.range_i64(0, 255 << j);
+            let hi = lo + (255 << j);
+            let mut v: Vec<i64> = (0..len).map(|_| rng.range_i64(lo, hi)).collect();
+            v[0] = lo;
+            if len > 1 {
+                v[len - 1] = hi;
+            } else {
+                v.push(hi);
+            }
+            v
+        }
+    };
+    if kind >= 3 && rng.chance(1, 2) {
+        rng.shuffle(&mut x);
+    }
+    let req = format!("dql e={e} x={}", rle(&x));
+    let xf: Vec<f32> = x.iter().map(|&v| v as f32 * pow2(e)).collect();
+    let res = hcommon::catch(|| run_dql(&xf));
+    let mut fail = None;
+    let ans = match res {
+        Ok(Ok((y, s, z))) => {
+            fail = dql_property(&xf, &y, s, z);
+            let se = if s == 0.0 {
+                "zero".to_string()
+            } else if s > 0.0 && s.log2().fract() == 0.0 {
+                format!("{}", s.log2() as i32)
+            } else {
+                format!("inexact:{s}")
+            };
+            format!("scale_e={se} zp={z} y={}", rle(&y))
+        }
+        Ok(Err(e)) => {
+            fail = Some(format!("DynamicQuantizeLinear failed: {e}"));
+            "err".into()
+        }
+        Err(m) => {
+            fail = Some(format!("DynamicQuantizeLinear panicked: {m}"));
+            "panic".into()
+        }
+    };
+    out.bucket(&format!("op_dql_kind{kind}"));
+    out.case(&req, &ans, fail.as_deref(), true);
+}
+
+fn dql_random_case(out: &mut Out, rng: &mut Rng) {
+    let len = 1 + rng.usize_below(200);
+    let amp = *rng.pick(&[1.0f32, 1e-3, 1e3, 37.5]);
+    let shift = *rng.pick(&[0.0f32, 0.5, -0.5, 2.0, -2.0]);
+    let xf: Vec<f32> = (0..len).map(|_| (rng.f32_unit() - 0.5 + shift) * amp).collect();
+    let req = format!("# dqlr n={len} amp={amp} shift={shift}");
+    let res = hcommon::catch(|| run_dql(&xf));
+    let (ans, fail) = match res {
+        Ok(Ok((y, s, z))) => {
+            let f = dql_property(&xf, &y, s, z);
+            (if f.is_some() { "fail" } else { "ok" }.to_string(), f)
+        }
+        _ => ("error".to_string(), Some("DynamicQuantizeLinear failed or panicked on random data".to_string())),
+    };
+    out.bucket("op_dql_random");
+    out.case(&req, &ans, fail.as_deref(), true);
+}
+
+fn operator_cases(out: &mut Out, rng: &mut Rng, thorough: bool) {
+    let scale = if thorough { 10 } else { 1 };
+    for _ in 0..400 * scale {
+        mmi_case(out, rng);
+    }
+    for _ in 0..500 * scale {
+        cvi_case(out, rng);
+    }
+    for _ in 0..150 * scale {
+        ql_case(out, rng);
+    }
+    for _ in 0..100 * scale {
+        dq_case(out, rng);
+    }
+    for _ in 0..200 * scale {
+        dql_exact_case(out, rng);
+    }
+    for _ in 0..200 * scale {
+        dql_random_case(out, rng);
+    }
+}
+
 fn main() {
     let args = hcommon::parse_args();
     hcommon::quiet_panics();
@@ -572,6 +1286,7 @@ fn run(args: &Args) {
     for c in gemv_cases(&mut rng, args.thorough) {
         one(&mut out, &kernels, &c);
     }
+    operator_cases(&mut out, &mut rng, args.thorough);
     let n = if args.thorough { 20_000 } else { 2_500 };
     for _ in 0..n {
         let c = random_case(&mut rng);
